@@ -439,7 +439,7 @@ U('C09', 'c09.range_period', 'lem_c09_range_period', 'pre_c09_per', None, lemma=
 U('C09', 'c09.sin_factors', 'lem_c09_sin_factors', 'pre_c01', None, lemma=True, cxx='lem_c09_sin_factors($1,$2)', replace=[(SIN_RANGE, 'UF', 'post_sin_range')], **INTQ)
 U('C09', 'c09.cos_period', 'lem_c09_cos_period', 'pre_c09_per', None, lemma=True, cxx='lem_c09_cos_period($1,$2)', **INTQ)
 U('C09', 'c09.sin.kernel', SIN, 'pre_valid1', 'post_unit_interval', replace=[K_SIN_RANGE], cxx='fixedmath::sin($1)', backends=MULBE, timeout=900, split=True)
-U('C09', 'c09.cos', COS, 'pre_c09_cos', 'post_unit_interval', replace=[(SIN, 'pre_valid1', 'post_unit_interval')], cxx='fixedmath::cos($1)', backends=MULBE, timeout=300)
+U('C09', 'c09.cos', COS, 'pre_valid1', 'post_unit_interval', replace=[(SIN, 'pre_valid1', 'post_unit_interval')], cxx='fixedmath::cos($1)', backends=MULBE, timeout=300)
 
 
 def c09_scan(tier, seed):
